@@ -13,7 +13,7 @@ import numpy as np
 
 from ..core import describe, import_library
 from ..gen import engines as E
-from ..env import ENVIRONMENTS, excusable, hostile, observe
+from ..env import ENVIRONMENTS, Held, excusable, hostile, observe
 from ..probe import Probe, Reach
 from ..ref import wiring as W
 from . import c08
@@ -287,6 +287,7 @@ def run(ctx):
     ctx.assumptions += ["a fresh engine is rebuilt from the generator's spec (plus the edits applied so far to that lineage)", "bit-exact comparison", "Function formulas range over input variables only (a formula over an output's value is history dependent by design)"]
     funcs = {"Engine.process": fl.Engine.process, "Engine.restart": fl.Engine.restart, "Engine.copy": fl.Engine.copy, "RuleBlock.reload_rules": fl.RuleBlock.reload_rules, "Rule.deactivate": fl.Rule.deactivate, "Linear.update_reference": fl.Linear.update_reference, "Function.update_reference": fl.Function.update_reference}
     ctx.excuse = lambda mechanism, observed, note: excusable(observed)
+    held = Held(ctx)
     with Reach(funcs) as reach, Probe() as probe:
         mon = HistoryMonitor(ctx, fl)
         mon.install(probe)
@@ -302,11 +303,14 @@ def run(ctx):
                 ctx.hit(f"inconclusive:generated engine does not build: {type(ex).__name__}")
                 continue
             mon.fresh = {id(engine): (factory, [])}
+            held.clear()
             envname = ENVIRONMENTS[(i // 6) % len(ENVIRONMENTS)] if i % 6 == 2 else None
             keep = [engine]  # keep every engine alive so that ids are not reused
             ops = []
             for _ in range(nops):
-                op = rnd.choice(["inputs", "inputs", "refill", "process", "process", "process", "restart", "copy", "edit", "toggle", "unload-restart", "look", "unload-look"])
+                op = rnd.choice(["inputs", "inputs", "refill", "process", "process", "process", "restart", "copy", "edit", "toggle", "unload-restart", "look", "unload-look", "empty batch"])
+                # what earlier steps handed out (the matrix of output values) stays what it was
+                held.check("a later operation: " + op)
                 ops.append(op)
                 try:
                     if op == "inputs":
@@ -314,7 +318,13 @@ def run(ctx):
                         rows = E.rows(rnd, spec, n)
                         typed = rnd.choice([None, None, None, "int array", "bool array", "python int", "list"])
                         for k, v in enumerate(engine.input_variables):
-                            v.value = float(rows[0][k]) if n == 1 else np.array([r[k] for r in rows])
+                            handed = np.array([r[k] for r in rows])
+                            v.value = float(rows[0][k]) if n == 1 else handed
+                            if n > 1:
+                                # the array handed over is the caller's: assigning it (range locked or not) does not rewrite it
+                                ctx.hit("compare:array handed to a variable left as it was")
+                                if not W.same(handed, np.array([r[k] for r in rows])):
+                                    ctx.violation("assigning an array to an input variable rewrites the caller's array", {"variable": v.name, "lock_range": v.lock_range}, [r[k] for r in rows], handed)
                             col = [r[k] for r in rows]
                             if typed and all(math.isfinite(x) for x in col):
                                 # values that are not float64 arrays (whole numbers, flags, plain lists): still just input values
@@ -344,6 +354,22 @@ def run(ctx):
                     elif op == "process":
                         with hostile(fl, envname if rnd.random() < 0.5 else None, ctx):
                             engine.process()
+                        held.keep("Engine.output_values", engine.output_values)
+                    elif op == "empty batch" and not scalar_only:
+                        # a batch without rows (an empty selection of a dataset): the engine then holds no rows, and processing it
+                        # - once, twice - yields no rows, whatever was processed before
+                        engine.input_values = np.empty((0, len(engine.input_variables)))
+                        ctx.evaluated()
+                        sizes = [int(np.size(v.value)) for v in engine.input_variables]
+                        if any(sizes):
+                            ctx.violation("after a batch without rows was given to the engine its input variables still hold values", {"engine": describe(engine)}, 0, sizes)
+                        engine.process()
+                        engine.process()
+                        outs = [int(np.size(ov.value)) for ov in engine.output_variables if ov.enabled]
+                        # (an output variable that no batch-valued activation reaches holds a single value for the whole batch)
+                        if any(k > 1 for k in outs):
+                            ctx.violation("processing a batch without rows leaves rows in the output variables (those of an earlier step)", {"engine": describe(engine)}, "no rows", outs)
+                        ctx.hit("event:batch without rows processed twice")
                     elif op == "look":
                         # the engine is looked at (printed, exported, asked whether it is ready, ...) between two steps
                         observe(fl, engine, rnd, ctx, None)
@@ -493,6 +519,7 @@ def run(ctx):
             mon.fresh = {}
         probe.report(ctx)
         reach.report(ctx)
+    ctx.require("event:batch without rows processed twice", "compare:array handed to a variable left as it was", "law:values handed out earlier are left alone")
     ctx.require("workload:input term that hands back its argument", "compare:input values left as given", "event:rule unloaded by hand, engine looked at, then processed", "event:observer between steps", *[f"environment:{e}" for e in ENVIRONMENTS])
     ctx.require("edit:term object replaced", "edit:output terms replaced by the other family and restart")
     ctx.require("hook:Engine.process", "hook:Engine.restart", "hook:Engine.copy", "compare:process vs fresh engine", "compare:rule state vs fresh engine", "event:rule unloaded before restart", "compare:restart", "compare:copy", "event:copy of an engine holding arrays of more than 8192 values", "compare:edit isolation", "graph:objects walked", "event:input arrays refilled in place", "event:toggle and restore", "input type:int array", "input type:bool array", "input type:python int", "input type:list")
